@@ -407,6 +407,8 @@ class S256Point(Point):
             x = int(sec_bin[1:33].hex(), 16)
             y = int(sec_bin[33:65].hex(), 16)
             return cls(x=x, y=y)
+        if sec_bin[0] not in (2, 3):
+            raise ValueError(f"unknown SEC prefix byte {sec_bin[0]}")
         is_even = sec_bin[0] == 2
         x = S256Field(int(sec_bin[1:].hex(), 16))
         # right side of the equation y^2 = x^3 + 7
